@@ -8,6 +8,7 @@ import (
 	"encoding/json"
 	"flag"
 	"fmt"
+	"google.golang.org/protobuf/reflect/protoreflect"
 	"io"
 	stdlog "log"
 	"os"
@@ -230,6 +231,8 @@ func main() {
 	maxProgs := flag.Int("max-programs", 1<<30, "stop after this many workloads (per worker)")
 	budget := flag.Float64("budget", 60, "wall-clock budget in seconds")
 	deep := flag.Bool("deep", false, "larger workloads")
+	flag.IntVar(&coldStartK, "coldstart-k", -1, "cold-start slice: index of this process (places the first preemption)")
+	flag.BoolVar(&coldStart, "coldstart", false, "cold-start slice: the very first thing this process does with the code under test is a simulated run of two or more tasks on separate or shared instances")
 	out := flag.String("out", "", "result file")
 	file := flag.String("file", "", "replay file")
 	detlog := flag.Bool("detlog", false, "record a per-run signature log (determinism self-test)")
@@ -319,8 +322,50 @@ func runWorker(master uint64, worker, workers, scheds, maxProgs int, budget floa
 		res.LastIndex = idx
 		wseed := simrt.Derive(master, 0x10, uint64(idx))
 		w := genWorkload(wseed, deep)
+		if coldStart {
+			// whatever is initialised once per PROCESS (lazily filled package-level tables, sync.Once,
+			// registries) is initialised by several tasks at once here, on instances of their own or
+			// on a shared one; no warm-up, nothing before the tasks
+			w.Codec = []string{"two_codecs", "two_codecs", "two_codecs", "global", "shared_cache"}[simrt.Derive(wseed, 0xc01d)%5]
+			w.Warm = nil
+			// only operations whose INPUT can be prepared without the code under test (a decode
+			// input is made by encoding with a private codec - which would be the first use)
+			for t := range w.Tasks {
+				for i := range w.Tasks[t] {
+					switch o := &w.Tasks[t][i]; o.Kind {
+					case "decode", "query", "decode_any":
+						o.Kind = []string{"encode", "encode_any", "walk"}[int(o.ValSeed>>8)%3]
+						o.Mutate = 0
+					}
+				}
+			}
+			if w.Codec == "two_codecs" {
+				// two instances that share nothing but the process: tasks alternate between them, and
+				// most operations are on types with well-known / j5 scalar-like members (timestamps,
+				// dates, decimals, anys), whose handling is the classic process-wide table
+				crng := simrt.NewRng(simrt.Derive(wseed, 0xc01e))
+				users := wktUsers()
+				for t := range w.Tasks {
+					for i := range w.Tasks[t] {
+						o := &w.Tasks[t][i]
+						if len(users) > 0 && (i == 0 || crng.Bool(0.7)) && o.Kind != "fill" && o.Kind != "soak" {
+							o.Type = users[crng.Intn(len(users))].key()
+							o.Mutate, o.Poison, o.NilOneof = 0, 0, false
+						}
+						if t%2 == 0 {
+							o.ValSeed &^= 16
+						} else {
+							o.ValSeed |= 16
+						}
+					}
+				}
+			}
+		}
 		scheds := scheds
 		seqOrders := 4
+		if coldStart {
+			scheds = 4 // only the first run of the process meets process-wide state cold
+		}
 		for _, ops := range w.Tasks {
 			for _, o := range ops {
 				if o.Kind == "fill" {
@@ -370,7 +415,7 @@ func runWorker(master uint64, worker, workers, scheds, maxProgs int, budget floa
 		// computed, so that the first use of a type in this process (and with it the first touch of
 		// any process-wide state behind it) happens inside simulated tasks and not on the main
 		// goroutine, whose accesses are ordered before everything the tasks do.
-		simsFirst := simrt.Derive(wseed, 0xf1)%2 == 0 && !nativeFallback()
+		simsFirst := (coldStart || simrt.Derive(wseed, 0xf1)%2 == 0) && !nativeFallback()
 		type pendingRun struct {
 			s   int
 			cfg RunCfg
@@ -383,7 +428,19 @@ func runWorker(master uint64, worker, workers, scheds, maxProgs int, budget floa
 		runOne := func(s int) pendingRun {
 			rng := simrt.NewRng(simrt.Derive(wseed, 0x5c, uint64(s)))
 			var pol simrt.Policy
-			if s == 0 {
+			if s == 0 && coldStart {
+				// the first run of the process is the only one that meets process-wide state cold:
+				// it must not be the serial one
+				// ... and the place where the first task is preempted is SWEPT across the cold-start
+				// processes: groups of 32 processes run the same workload, process k of a group lets the
+				// first task run for about 7k yields and then drops it below the others, which run
+				// undisturbed: a window of a few yields in the first 220 is met by some process
+				pol = simrt.Policy{Mode: "pct", PCTDepth: 1, EstYields: 400, PCTPoints: []int{7*(coldStartK%32) + int(rng.Intn(7))}}
+				if coldStartK < 0 {
+					pol = simrt.Policy{Mode: "random", SwitchProb: 0.15}
+				}
+				pol.MaxYields = 1 << 40
+			} else if s == 0 {
 				pol = simrt.Policy{Mode: "serial", SerialOrder: rng.Perm(len(w.Tasks)), MaxYields: 1 << 40}
 			} else {
 				pol = genPolicy(rng, len(w.Tasks), estYields)
@@ -657,6 +714,42 @@ done:
 		_ = os.Remove(outPath + ".current")
 	}
 	return res
+}
+
+// coldStart: see the -coldstart flag
+var coldStart bool
+var coldStartK int
+
+var wktUserList []*TypeInfo
+
+// wktUsers: reflectable catalogue types with a direct member of a well-known or j5 scalar-like
+// message type.
+func wktUsers() []*TypeInfo {
+	if wktUserList != nil {
+		return wktUserList
+	}
+	for _, ti := range goodTypes {
+		fields := ti.Desc.Fields()
+		for i := 0; i < fields.Len(); i++ {
+			fd := fields.Get(i)
+			if fd.Kind() != protoreflect.MessageKind {
+				continue
+			}
+			md := fd.Message()
+			if fd.IsMap() {
+				if fd.MapValue().Kind() != protoreflect.MessageKind {
+					continue
+				}
+				md = fd.MapValue().Message()
+			}
+			n := string(md.FullName())
+			if n == "google.protobuf.Timestamp" || n == "google.protobuf.Duration" || strings.HasPrefix(n, "j5.types.") {
+				wktUserList = append(wktUserList, ti)
+				break
+			}
+		}
+	}
+	return wktUserList
 }
 
 var seqVerifyBudget = 12
